@@ -37,7 +37,8 @@ Inductive ccase :=
        (exp_err exp_count : N) (exp_fields : list value) (impl_alloc : N)
 | CStart (input : bytes) (exp_err : N) (exp_id exp_typ : N) (exp_name : string)
          (exp_fields : list value) (impl_alloc : N)
-| CHRead (maxRead : Z) (avail : N) (exp_crash : bool) (exp_n exp_code : N).
+| CHRead (maxRead : Z) (avail : N) (exp_crash : bool) (exp_n exp_code : N)
+| CTRead (buflen replylen : N) (exp_ok : bool) (exp_n : N).
 
 Definition alloc_agrees (impl model inlen : N) : bool :=
   impl <=? 2 * model + 2 * inlen + 32768.
@@ -87,6 +88,11 @@ Definition check_case_with (schs : list (string * schema)) (tbl : request_table)
       | RPanic => exp_crash
       | RErrReply => negb exp_crash && (exp_n =? 0) && (exp_code =? err_read_code)
       | RRead _ n => negb exp_crash && (exp_n =? n) && (exp_code =? 0)
+      end
+  | CTRead buflen replylen exp_ok exp_n =>
+      match tunnel_read_result buflen replylen with
+      | Some n => exp_ok && (exp_n =? n)
+      | None => negb exp_ok
       end
   end.
 
